@@ -172,6 +172,17 @@ def handle (line : String) : String :=
       let ss := steps.map (fun st => s!"{showTasks st.enabled}>{st.choice}>{showTasks st.spawned}@{st.done}/{st.total}")
       s!"{showSimVerdict v} {if ss.isEmpty then "-" else "|".intercalate ss}"
     | _, _, _, _, _ => "bad-field"
+  | ["pass", mode, first, tr, base, src, tree, cmds] =>
+    match modeOf mode, unhex base, unhex src, parseTree (splitList tree), parseCmds (splitList cmds) with
+    | some mode, some base, some src, some fs, some cmds =>
+      let cfg : Cfg := { mode := mode, trailing := tr == "t", recursive := false, baseAbs := base, cmds := cmds }
+      let (oc, fs') := runPass cfg fs (parsePath src) (first == "t")
+      let o := match oc with
+        | .ok => "ok"
+        | .err => "err"
+        | .hasDeps deps => "deps:" ++ ",".intercalate (deps.map hex)
+      s!"{o} {showFS fs'}"
+    | _, _, _, _, _ => "bad-field"
   | ["coordscan", files, dirs, world, dirworld, choices] =>
     match parseNats files, parseNats dirs, parseWorld (splitList world), parseDirWorld (splitList dirworld), parseNats choices with
     | some files, some dirs, some wl, some dl, some choices =>
